@@ -33,7 +33,8 @@ def coreUn (op : Op) : Bool := op = .neg || op = .inv
 /-- every infix operator of the fragment -/
 def coreInfix : List Op :=
   [.add, .sub, .mul, .mod, .eq, .ne, .lt, .le, .gt, .ge, .is_, .is_not, .and_, .or_,
-   .truediv, .floordiv, .concat_op, .like_op, .not_like_op, .ilike_op, .not_ilike_op]
+   .truediv, .floordiv, .concat_op, .like_op, .not_like_op, .ilike_op, .not_ilike_op,
+   .in_op, .not_in_op]
 
 def corePrefix : List Op := [.neg, .inv]
 
@@ -59,6 +60,18 @@ def likePair (op n : Op) : Bool :=
   (op = .like_op && n = .not_like_op) || (op = .not_like_op && n = .like_op) ||
   (op = .ilike_op && n = .not_ilike_op) || (op = .not_ilike_op && n = .ilike_op)
 
+/-- `in_op` / `not_in_op` -/
+def inOp (op : Op) : Bool := op = .in_op || op = .not_in_op
+
+/-- the right operand of `x.in_([v₁, …])` / `x.not_in([…])`: a non-empty expanding parameter that
+    carries the operator it is used with -/
+def inRight (op : Op) : SaExpr → Bool
+  | .inlist vs _ eo => !vs.isEmpty && eo = op
+  | _ => false
+
+def inPair (op n : Op) : Bool :=
+  (op = .in_op && n = .not_in_op) || (op = .not_in_op && n = .in_op)
+
 mutual
 /-- the element belongs to the fragment -/
 def Core : SaExpr → Bool
@@ -68,7 +81,9 @@ def Core : SaExpr → Bool
   | .true_ => true
   | .false_ => true
   | .binary op l r _ esc _ =>
-    ((coreBinD op && esc.isNone) || (likeOp op && closedE l && closedE r)) && Core l && Core r
+    Core l &&
+      ((coreBinD op && esc.isNone && Core r) || (likeOp op && closedE l && closedE r && Core r) ||
+       (inOp op && esc.isNone && inRight op r))
   | .clist op cs group _ _ => coreList op && group && decide (2 ≤ cs.length) && CoreList cs
   | .unary op e _ => coreUn op && Core e
   | .grouping e => Core e
@@ -104,17 +119,24 @@ def WGAll : List SaExpr → Bool
   | e :: es => WG e && WGAll es
 end
 
+/-- the three kinds of binary nodes of the fragment: generic (incl. the divisions and
+    concatenation), the LIKE family over closed operands, IN / NOT IN with an expanding list -/
 theorem core_binary {op : Op} {l r : SaExpr} {n : Option Op} {esc : Option String} {ty : Ty}
     (hc : Core (.binary op l r n esc ty) = true) :
-    Core l = true ∧ Core r = true ∧
-      ((coreBinD op = true ∧ esc.isNone = true) ∨
-       (likeOp op = true ∧ closedE l = true ∧ closedE r = true)) := by
+    Core l = true ∧
+      ((coreBinD op = true ∧ esc.isNone = true ∧ Core r = true) ∨
+       (likeOp op = true ∧ closedE l = true ∧ closedE r = true ∧ Core r = true) ∨
+       (inOp op = true ∧ esc.isNone = true ∧ inRight op r = true)) := by
   simp only [Core, Bool.and_eq_true, Bool.or_eq_true] at hc
-  obtain ⟨⟨h, hl⟩, hr⟩ := hc
-  refine ⟨hl, hr, ?_⟩
-  rcases h with h | h
-  · exact Or.inl h
-  · exact Or.inr ⟨h.1.1, h.1.2, h.2⟩
+  obtain ⟨hl, h⟩ := hc
+  refine ⟨hl, ?_⟩
+  rcases h with (h | h) | h
+  · exact Or.inl ⟨h.1.1, h.1.2, h.2⟩
+  · exact Or.inr (Or.inl ⟨h.1.1.1, h.1.1.2, h.1.2, h.2⟩)
+  · exact Or.inr (Or.inr ⟨h.1.1, h.1.2, h.2⟩)
+
+theorem inOp_mem {op : Op} (h : inOp op = true) : op ∈ coreInfix := by
+  cases op <;> simp [inOp] at h <;> simp [coreInfix]
 
 theorem likeOp_mem {op : Op} (h : likeOp op = true) : op ∈ coreInfix := by
   cases op <;> simp [likeOp] at h <;> simp [coreInfix]
@@ -122,12 +144,21 @@ theorem likeOp_mem {op : Op} (h : likeOp op = true) : op ∈ coreInfix := by
 /-- the operator of a binary of the fragment is one of its infix operators -/
 theorem core_binary_mem {op : Op} {l r : SaExpr} {n : Option Op} {esc : Option String} {ty : Ty}
     (hc : Core (.binary op l r n esc ty) = true) : op ∈ coreInfix := by
-  obtain ⟨_, _, h⟩ := core_binary hc
-  rcases h with h | h
-  · rcases (by simpa [coreBinD] using h.1 : coreBin op = true ∨ coreDiv op = true) with h' | h'
+  obtain ⟨_, h⟩ := core_binary hc
+  rcases h with ⟨hop, _, _⟩ | ⟨hl, _, _, _⟩ | ⟨hi, _, _⟩
+  · rcases (by simpa [coreBinD] using hop : coreBin op = true ∨ coreDiv op = true) with h' | h'
     · cases op <;> simp [coreBin] at h' <;> simp [coreInfix]
     · cases op <;> simp [coreDiv] at h' <;> simp [coreInfix]
-  · exact likeOp_mem h.1
+  · exact likeOp_mem hl
+  · exact inOp_mem hi
+
+theorem inRight_cases {op : Op} {r : SaExpr} (h : inRight op r = true) :
+    ∃ vs ty, r = .inlist vs ty op ∧ vs ≠ [] := by
+  cases r <;> simp [inRight] at h
+  rename_i vs ty eo
+  obtain ⟨h1, h2⟩ := h
+  subst h2
+  exact ⟨vs, ty, rfl, h1⟩
 
 /-- the root operator (if any) has precedence above `p` -/
 def rootAbove (p : Int) : SaExpr → Bool
@@ -574,7 +605,7 @@ theorem above_of_WG (hprec : ∀ o, o ∈ coreInfix ∨ o ∈ corePrefix → (pr
   | .grouping _, _, _, _, _ => rfl
   | .binary op l r n esc ty, p, hc, hw, hr => by
     have hmem := core_binary_mem hc
-    obtain ⟨hcl, hcr, _⟩ := core_binary hc
+    obtain ⟨hcl, hk⟩ := core_binary hc
     simp only [WG, Bool.and_eq_true, Bool.not_eq_true'] at hw
     obtain ⟨⟨⟨hgl, hgr⟩, hwl⟩, hwr⟩ := hw
     simp only [rootAbove, decide_eq_true_eq] at hr
@@ -586,11 +617,18 @@ theorem above_of_WG (hprec : ∀ o, o ∈ coreInfix ∨ o ∈ corePrefix → (pr
       intro cop hcop
       have := precOf_le_of_not_precedent hs (not_precedent_of_not_wouldGroup hcl hcop hgl)
       omega
-    · apply above_of_WG hprec r p hcr hwr
-      apply rootAbove_of_rootOp
-      intro cop hcop
-      have := precOf_le_of_not_precedent hs (not_precedent_of_not_wouldGroup hcr hcop hgr)
-      omega
+    · have key : ∀ hcr : Core r = true, above p r = true := by
+        intro hcr
+        apply above_of_WG hprec r p hcr hwr
+        apply rootAbove_of_rootOp
+        intro cop hcop
+        have := precOf_le_of_not_precedent hs (not_precedent_of_not_wouldGroup hcr hcop hgr)
+        omega
+      rcases hk with ⟨_, _, hcr⟩ | ⟨_, _, _, hcr⟩ | ⟨_, _, hir⟩
+      · exact key hcr
+      · exact key hcr
+      · obtain ⟨vs, ty', he, _⟩ := inRight_cases hir
+        subst he; rfl
   | .unary op e ty, p, hc, hw, hr => by
     simp only [Core, Bool.and_eq_true] at hc
     simp only [WG, Bool.and_eq_true, Bool.not_eq_true'] at hw
@@ -789,6 +827,18 @@ theorem render_like (d : Dialect) (lb : Bool) (op : Op) (l r : SaExpr) (n : Opti
       show (if d = .postgresql then _ else _) = _
       simp [hd, likeSym, likeWrap]
 
+/-- `x IN (v₁, …)` / `(x NOT IN (v₁, …))` for a non-empty list -/
+theorem render_inNode (d : Dialect) (lb : Bool) (op : Op) (l : SaExpr) (vs : List Lit) (lty : Ty)
+    (n : Option Op) (esc : Option String) (ty : Ty) (h : inOp op = true) (hne : vs ≠ []) :
+    render d lb (.binary op l (.inlist vs lty op) n esc ty) =
+      (if op = .in_op then G.inf .in_ (opText .in_op) (render d lb l) (G.br .paren (litListG d lb vs))
+       else G.br .paren
+        (G.inf .notIn (opText .not_in_op) (render d lb l) (G.br .paren (litListG d lb vs)))) := by
+  have he : vs.isEmpty = false := by cases vs <;> simp at hne ⊢
+  cases op <;> simp [inOp] at h
+  · rw [render_in_op]; simp [inG, he]
+  · rw [render_not_in_op]; simp [inG, he]
+
 theorem closedG_likeWrap (d : Dialect) (op : Op) (x : G) (h : closedG x = true) :
     closedG (likeWrap d op x) = true := by
   unfold likeWrap
@@ -945,11 +995,23 @@ theorem tight_render (g : Grammar) (C : Compat g) (d : Dialect) (k : Nat) (p : I
   | .false_, _, _ => rfl
   | .grouping e, _, _ => by rw [render_grouping]; rfl
   | .binary op l r n esc ty, hc, ha => by
-    obtain ⟨hcl, hcr, hk⟩ := core_binary hc
+    obtain ⟨hcl, hk⟩ := core_binary hc
     simp only [above, Bool.and_eq_true, decide_eq_true_eq] at ha
     obtain ⟨⟨hp, hal⟩, har⟩ := ha
-    rcases hk with ⟨hop, _⟩ | ⟨hlk, cl, cr⟩
-    case inr =>
+    rcases hk with ⟨hop, _, hcr⟩ | ⟨hlk, cl, cr, hcr⟩ | ⟨hin, _, hir⟩
+    case inr.inr =>
+      obtain ⟨vs, lty, he, hne⟩ := inRight_cases hir
+      subst he
+      rw [render_inNode d true op l vs lty n esc ty hin hne]
+      split
+      · rename_i ho
+        subst ho
+        obtain ⟨lbp, rbp, hb, _, _⟩ := C.inf_known .in_op (inOp_mem hin)
+        obtain ⟨h1, h2⟩ := infBase_le hb (H .in_op (inOp_mem hin) hp)
+        have hb2 : g.infixBp .in_ = some (lbp, rbp) := hb
+        simp [tight, hb2, h1, h2, tight_render g C d k p H H' l hcl hal]
+      · rfl
+    case inr.inl =>
       obtain ⟨lbp, rbp, bp3, hb, hq, hb', hq', _⟩ := like_facts g C d op hlk
       obtain ⟨h1, h2, h3⟩ := infBase_le3 hb' hq' (H op (likeOp_mem hlk) hp)
       obtain ⟨t, heq⟩ := render_like d true op l r n esc ty hlk
@@ -1034,9 +1096,19 @@ theorem allExp_render (d : Dialect) (P : Sym → Bool)
   | .false_, _ => rfl
   | .grouping e, _ => by rw [render_grouping]; rfl
   | .binary op l r n esc ty, hc => by
-    obtain ⟨hcl, hcr, hk⟩ := core_binary hc
-    rcases hk with ⟨hop, _⟩ | ⟨hlk, cl, cr⟩
-    case inr =>
+    obtain ⟨hcl, hk⟩ := core_binary hc
+    rcases hk with ⟨hop, _, hcr⟩ | ⟨hlk, cl, cr, hcr⟩ | ⟨hin, _, hir⟩
+    case inr.inr =>
+      obtain ⟨vs, lty, he, hne⟩ := inRight_cases hir
+      subst he
+      rw [render_inNode d true op l vs lty n esc ty hin hne]
+      split
+      · rename_i ho
+        subst ho
+        have hPs : P .in_ = true := hP .in_op (inOp_mem hin)
+        simp [allExp, hPs, allExp_render d P hP hP' l hcl]
+      · rfl
+    case inr.inl =>
       obtain ⟨t, heq⟩ := render_like d true op l r n esc ty hlk
       obtain ⟨o, ho, hso⟩ := likeSym_symOf d op hlk
       rw [heq]
@@ -1130,9 +1202,10 @@ theorem rootIs_render_of_rootOp (d : Dialect) (op : Op) (c : SaExpr) (hc : Core 
   cases c with
   | binary op' l r n esc ty =>
     simp only [rootOp, Option.some.injEq] at hr; subst hr
-    obtain ⟨_, _, hk⟩ := core_binary hc
-    rcases hk with ⟨hop, _⟩ | ⟨hlk, _, _⟩
-    case inr => cases op' <;> simp [likeOp] at hlk <;> simp [symOf, G.assocSym] at hna
+    obtain ⟨_, hk⟩ := core_binary hc
+    rcases hk with ⟨hop, _, _⟩ | ⟨hlk, _, _, _⟩ | ⟨hin, _, _⟩
+    case inr.inl => cases op' <;> simp [likeOp] at hlk <;> simp [symOf, G.assocSym] at hna
+    case inr.inr => cases op' <;> simp [inOp] at hin <;> simp [symOf, G.assocSym] at hna
     rcases coreBinD_cases hop with hop' | hdiv
     · obtain ⟨txt, heq⟩ := render_coreBin d true op' l r n esc ty hop' hcf
       rw [heq]; simp [rootIs]
@@ -1438,6 +1511,22 @@ theorem ok_castG {g : Grammar} {sl sr : Nat} (F : SepFacts g sl sr) (name : Opti
     | true => simpa [ok] using hx.1
     | false => simpa using hx.1
 
+theorem ok_litList (g : Grammar) {sl sr : Nat} (F : SepFacts g sl sr) (d : Dialect) (lb : Bool)
+    (vs : List Lit) : ok g (litListG d lb vs) = true := by
+  unfold litListG
+  apply ok_chain_comma F
+  intro x hx
+  simp only [List.mem_map] at hx
+  obtain ⟨v, _, hv⟩ := hx
+  subst hv
+  exact ⟨rfl, rfl, fun _ _ => rfl⟩
+
+theorem inOp_not_like {op : Op} (h : inOp op = true) : likeOp op = false := by
+  cases op <;> simp [inOp] at h <;> rfl
+
+theorem inOp_ne_concat {op : Op} (h : inOp op = true) : op ≠ .concat_op := by
+  cases op <;> simp [inOp] at h <;> simp
+
 theorem rootOp_mem {c : SaExpr} {cop : Op} (hc : Core c = true) (h : rootOp c = some cop) :
     cop ∈ coreInfix ∨ cop ∈ corePrefix := by
   cases c <;> simp [rootOp] at h <;> subst h
@@ -1586,14 +1675,49 @@ theorem ok_render (g : Grammar) (C : Compat g) (hpt : prefixNoTern g) (d : Diale
     exact ok_render g C hpt d e (by simpa [Core] using hc) (by simpa [WG] using hw)
       (csh_sub hs (by simp [ConcatSafe]))
   | .binary op l r n esc ty, hc, hw, hs => by
-    obtain ⟨hcl, hcr, hk⟩ := core_binary hc
+    obtain ⟨hcl, hk⟩ := core_binary hc
     simp only [WG, Bool.and_eq_true, Bool.not_eq_true'] at hw
     obtain ⟨⟨⟨hgl, hgr⟩, hwl⟩, hwr⟩ := hw
     obtain ⟨hsl, hsr, hcat⟩ := csh_binary hs
     have okl := ok_render g C hpt d l hcl hwl hsl
-    have okr := ok_render g C hpt d r hcr hwr hsr
-    rcases hk with ⟨hop, _⟩ | ⟨hlk, cl, cr⟩
-    case inr =>
+    rcases hk with ⟨hop, _, hcr⟩ | ⟨hlk, cl, cr, hcr⟩ | ⟨hin, _, hir⟩
+    case inr.inr =>
+      -- `x IN (v₁, …)` / `(x NOT IN (v₁, …))`
+      obtain ⟨vs, lty, he, hne⟩ := inRight_cases hir
+      subst he
+      have hi := inOp_mem hin
+      obtain ⟨lbp, rbp, hb, hq', _⟩ := C.inf_known op hi
+      have hq := hq' (inOp_not_like hin)
+      obtain ⟨sl, sr, hlt, hbp, _, _⟩ := C.sep
+      have F : SepFacts g sl sr := ⟨hlt, hbp⟩
+      have chl := child_under_infix g C d op hi lbp rbp hb l hcl hwl hgl (Or.inl (inOp_ne_concat hin))
+      have nml := allExp_render d (notMidOf g (some (symOf op))) (notMid_core g C _ (by simp [symOf_ne_escape]))
+        (fun u hu => by simp [notMidOf, hpt u hu]) l hcl
+      have ha : G.assocSym (symOf op) = false := by
+        cases op <;> simp [inOp] at hin <;> rfl
+      have hnn : naturalSelfPrecedent op = false := by
+        cases hh : naturalSelfPrecedent op with
+        | false => rfl
+        | true => have := (C.nsp_assoc op hi hh).1; rw [ha] at this; cases this
+      have tl : tight g (lbp + 1) (render d true l) = true := by
+        rcases chl with h | h
+        · rw [hnn] at h; cases h.1
+        · exact h.1
+      have okL := ok_litList g F d true vs
+      rw [render_inNode d true op l vs lty n esc ty hin hne]
+      cases op <;> simp [inOp] at hin
+      · have hb2 : g.infixBp .in_ = some (lbp, rbp) := hb
+        have hq2 : g.ternBp .in_ = none := hq
+        have ha2 : G.assocSym .in_ = false := rfl
+        have nm2 : allExp (notMidOf g (some .in_)) (render d true l) = true := nml
+        simp [ok, hb2, ha2, hq2, okl, okL, tl, nm2, tight]
+      · have hb2 : g.infixBp .notIn = some (lbp, rbp) := hb
+        have hq2 : g.ternBp .notIn = none := hq
+        have ha2 : G.assocSym .notIn = false := rfl
+        have nm2 : allExp (notMidOf g (some .notIn)) (render d true l) = true := nml
+        simp [ok, hb2, ha2, hq2, okl, okL, tl, nm2, tight]
+    case inr.inl =>
+      have okr := ok_render g C hpt d r hcr hwr hsr
       -- the LIKE family over closed operands
       obtain ⟨lbp, rbp, bp3, hb, hq, _, _, ha⟩ := like_facts g C d op hlk
       obtain ⟨t, heq⟩ := render_like d true op l r n esc ty hlk
@@ -1602,6 +1726,7 @@ theorem ok_render (g : Grammar) (C : Compat g) (hpt : prefixNoTern g) (d : Diale
         (closedG_likeWrap _ _ _ (closedG_render d l hcl (closedE_none cl)))
         (closedG_likeWrap _ _ _ (closedG_render d r hcr (closedE_none cr)))
         (ok_likeWrap g d op _ okl) (ok_likeWrap g d op _ okr)
+    have okr := ok_render g C hpt d r hcr hwr hsr
     have hi := coreBinD_mem hop
     obtain ⟨lbp, rbp, hb, hq', _⟩ := C.inf_known op hi
     have hq := hq' (coreBinD_not_like hop)
@@ -1987,12 +2112,19 @@ theorem lower_core : ∀ e : SaExpr, Core e = true → lower e = e
     simp only [lower]
     rw [lower_core e (by simpa [Core] using hc)]
   | .binary op l r n esc ty, hc => by
-    obtain ⟨hcl, hcr, hk⟩ := core_binary hc
+    obtain ⟨hcl, hk⟩ := core_binary hc
     have hso : strOpKind op = none := by
-      rcases hk with ⟨hop, _⟩ | ⟨hlk, _, _⟩
+      rcases hk with ⟨hop, _, _⟩ | ⟨hlk, _, _, _⟩ | ⟨hin, _, _⟩
       · exact strOpKind_coreD hop
       · cases op <;> simp [likeOp] at hlk <;> rfl
-    simp only [lower, hso, lower_core l hcl, lower_core r hcr]
+      · cases op <;> simp [inOp] at hin <;> rfl
+    have hlr : lower r = r := by
+      rcases hk with ⟨_, _, hcr⟩ | ⟨_, _, _, hcr⟩ | ⟨_, _, hir⟩
+      · exact lower_core r hcr
+      · exact lower_core r hcr
+      · obtain ⟨vs, lty, he, _⟩ := inRight_cases hir
+        subst he; rfl
+    simp only [lower, hso, lower_core l hcl, hlr]
   | .unary op e ty, hc => by
     simp only [Core, Bool.and_eq_true] at hc
     simp only [lower, lower_core e hc.2]
